@@ -197,6 +197,18 @@ func (s *Sim) RefSwap(zeroForOne, exactIn bool, amount *big.Int) RefResult {
 			}
 			amp := new(big.Rat).Add(big.NewRat(1, 1), inv(new(big.Rat).Mul(lo, lo)))
 			res.Beta.Add(res.Beta, new(big.Rat).Mul(g, amp))
+			// a token0 amount enters the next sqrt price through L*s/(L +- dx*s): the 1e-36 rounding of the product dx*s
+			// moves the result by s'^2/(L*s) * 1e-36, i.e. the token1 amount by s'^2/s * 1e-36 - negligible except when a
+			// bucket is nearly drained towards a sqrt price of 1e19 (s'^2 = 1e38)
+			hi := b.SqrtTo
+			if b.SqrtFrom.Cmp(hi) > 0 {
+				hi = b.SqrtFrom
+			}
+			if lo.Sign() > 0 {
+				g2 := new(big.Rat).Quo(new(big.Rat).Mul(hi, hi), lo)
+				g2.Mul(g2, new(big.Rat).SetFrac(big.NewInt(8), e36))
+				res.Beta.Add(res.Beta, g2)
+			}
 			sq = b.SqrtTo
 			if !reach {
 				res.Buckets = append(res.Buckets, b)
